@@ -457,11 +457,11 @@ func (g *groupConsumer) manageFailWait(consecutiveErrors int, err error) (ctxCan
 		// onRevoked, but since we are handling this case for
 		// the cooperative consumer we may as well just also
 		// include the eager consumer.
-		g.cfg.onRevoked(g.cl.ctx, g.cl, g.nowAssigned.read())
+		g.cfg.onRevoked(g.cl.ctx, g.cl, g.ownedAssignment())
 	} else {
 		// Any other error is perceived as a fatal error,
 		// and we go into onLost as appropriate.
-		g.cfg.onLost(g.cl.ctx, g.cl, g.nowAssigned.read())
+		g.cfg.onLost(g.cl.ctx, g.cl, g.ownedAssignment())
 		g.cfg.hooks.each(func(h Hook) {
 			if h, ok := h.(HookGroupManageError); ok {
 				h.OnGroupManageError(err)
@@ -536,7 +536,7 @@ func (g *groupConsumer) manageFailWait(consecutiveErrors int, err error) (ctxCan
 func (g *groupConsumer) abandonAssignment(why string) {
 	g.c.waitAndAddRebalance()
 
-	g.cfg.onLost(g.cl.ctx, g.cl, g.nowAssigned.read())
+	g.cfg.onLost(g.cl.ctx, g.cl, g.ownedAssignment())
 
 	g.c.mu.Lock()
 	g.c.assignPartitions(nil, assignInvalidateAll, nil, why)
@@ -713,6 +713,34 @@ func (g *groupConsumer) diffAssigned() (added, lost map[string][]int32) {
 	return added, lost
 }
 
+// ownedAssignment returns what the user currently owns from the view of the
+// assign / revoke / lost callbacks: g.lastAssigned is everything passed to
+// onAssigned and not yet passed to onRevoked or onLost, as of the current
+// session's setup. g.nowAssigned usually equals it, but a KIP-848 heartbeat
+// stores the coordinator's new target assignment immediately: partitions the
+// coordinator dropped are gone from nowAssigned before the next session setup
+// has revoked them from the user. When we stop managing the group instead of
+// entering that next session (leaving, or a fatal error), those partitions
+// must still be given to onRevoked / onLost, so we return the union.
+func (g *groupConsumer) ownedAssignment() map[string][]int32 {
+	owned := g.nowAssigned.clone()
+	for topic, lastPartitions := range g.lastAssigned {
+		have := make(map[int32]struct{}, len(owned[topic]))
+		for _, p := range owned[topic] {
+			have[p] = struct{}{}
+		}
+		for _, p := range lastPartitions {
+			if _, ok := have[p]; !ok {
+				if owned == nil {
+					owned = make(map[string][]int32)
+				}
+				owned[topic] = append(owned[topic], p)
+			}
+		}
+	}
+	return owned
+}
+
 type revokeStage int8
 
 const (
@@ -755,7 +783,7 @@ func (g *groupConsumer) revoke(stage revokeStage, lost map[string][]int32, leavi
 		} else {
 			g.cfg.logger.Log(LogLevelInfo, "cooperative consumer revoking prior assigned partitions because leaving group", "group", g.cfg.group, "revoking", mtps(g.nowAssigned.read()))
 		}
-		g.cfg.onRevoked(g.cl.ctx, g.cl, g.nowAssigned.read())
+		g.cfg.onRevoked(g.cl.ctx, g.cl, g.ownedAssignment())
 		g.nowAssigned.store(nil)
 		g.lastAssigned = nil
 
